@@ -861,3 +861,7 @@ def push_verbatim(ctx):
     ctx.saw('data push: stack.append(%s)' % (show(val) if isinstance(val, tuple) else val))
     ctx.require(val == C, q, 'a data push puts `%s` on the stack instead of the pushed bytes themselves' % (show(val) if isinstance(val, tuple) else val), pushes[0][2],
                 'the element "cafe" (63616665) becomes 0xcafe: `<"cafe"> SHA256 <sha256("cafe")> EQUAL` fails and `<"cafe"> <0xcafe> EQUAL`, which consensus rejects, is reported valid')
+
+
+from . import c18 as _c18x
+PROP.obligation('C19.pushdata')(_c18x.pushdata)
